@@ -128,6 +128,7 @@ func runLimitsMode() {
 		limitsCase(name, root, o, cfg, p, r)
 	}
 	frozenFloodCases()
+	floatFrameBoundCases()
 }
 
 func limitsCase(name string, root *rootSpec, o wopts, cfg *recgen.Cfg, p genParams, r *rng.R) {
@@ -467,6 +468,67 @@ func frozenFloodCases() {
 			bound := int(L)/24 + 2
 			if maxRun > bound {
 				propFail("C08 dict-limit-not-enforced case=%s L=%d: %d distinct frozen Resource values (>= 24 bytes each in the reader's dictionary) were written between two dictionary restarts (at most %d can fit the limit plus one record); %d restarts announced in %d records", name, L, maxRun, bound, restarts, n)
+			}
+		}
+	}
+}
+
+// floatFrameBoundCases: the frame size limit on records whose encoding is mostly ONE float column, with
+// value patterns that exercise every branch of the float codec's size accounting: a first step that
+// opens a wide window, then flips inside it (window reuse), identical values, and new windows. With
+// thousands of small records per limit, a codec that reports fewer bits than it writes lets frames
+// grow well beyond F + last record + size table.
+func floatFrameBoundCases() {
+	patterns := map[string][]float64{
+		"flip-inside-window": {1.0, 2.0, 4.0, 2.0, 4.0},
+		"small-ints":         {0, 1, 2, 3, 5, 8, 13, 21, 34, 55},
+		"identical-and-new":  {7.5, 7.5, 7.5, 1e300, 7.5, -7.5},
+	}
+	names := []string{"flip-inside-window", "small-ints", "identical-and-new"}
+	for _, pn := range names {
+		for _, F := range []uint{1000, 4000} {
+			name := fmt.Sprintf("lim-float-%s-F%d", pn, F)
+			note("case %s", name)
+			note("nontrivial %x", fnv(name))
+			cl := &chunkLog{}
+			w, err := otelstef.NewMetricsWriter(cl, pkg.WriterOptions{MaxUncompressedFrameByteSize: F})
+			if err != nil {
+				propFail("C08 float-frame-writer-error case=%s %v", name, err)
+				continue
+			}
+			pat := patterns[pn]
+			n := 12000
+			w.Record.Metric().SetName("gauge")
+			for i := 0; i < n; i++ {
+				v := pat[0]
+				if i > 0 {
+					v = pat[1+(i-1)%(len(pat)-1)]
+				}
+				w.Record.Point().SetTimestamp(uint64(1000 + i))
+				w.Record.Point().Value().SetFloat64(v)
+				if err := w.Write(); err != nil {
+					propFail("C08 float-frame-writer-error case=%s %v", name, err)
+					break
+				}
+			}
+			w.Flush()
+			ps := parseStream(cl.buf.Bytes())
+			if ps.err != nil {
+				propFail("C08 framing-parse case=%s %v", name, ps.err)
+				continue
+			}
+			stats["float-frame-bound-frames"] += len(ps.frames) - 1
+			// tolerance: one record of this shape encodes in well under 32 bytes; the size table of a
+			// Metrics frame (one compact varint per column) in under 400
+			bound := int(F) + 32 + 400
+			worst := 0
+			for _, f := range ps.frames[1:] {
+				if len(f.content) > worst {
+					worst = len(f.content)
+				}
+			}
+			if worst > bound {
+				propFail("C08 frame-limit-exceeded-float-column case=%s: %d gauge records with the value pattern %v (after the first value), frame size limit F=%d, no Flush: the largest frame has %d bytes of content, more than F + one record + the size table (%d); frames: %d", name, n, pat, F, worst, bound, len(ps.frames)-1)
 			}
 		}
 	}
